@@ -46,7 +46,7 @@ for _f in formats.FORMATS:
 
 def plan(tier):
     if tier == "thorough":
-        return {"shards": 16, "params": {"objects": 140, "values": 600, "strace_cases": 40, "budget_s": 2000, "audit": True, "vtrace": True},
+        return {"shards": 16, "params": {"objects": 900, "values": 4000, "strace_cases": 60, "budget_s": 2000, "audit": True, "vtrace": True},
                 "timeout_s": 3600}
     return {"shards": 4, "params": {"objects": 42, "values": 200, "strace_cases": 8, "budget_s": 300, "audit": True, "vtrace": True},
             "timeout_s": 900}
